@@ -124,6 +124,7 @@ def verify_case(con: C.Contract, case: C.Case, timeout_ms=10000) -> CaseReport:
             compared[0] += 1
             case.on_exit(it, ctx, real, rep)
         sx = C.SpecCtx(ctx, it)
+        sx.oid_prefix = rep.oid("")  # for intermediate proof steps (sx.have)
         sx.real_args = args1  # for identity (aliasing) clauses of a contract
         sx.real_kwargs = kw1
         try:
